@@ -97,6 +97,16 @@ def admmInit [Zero X] [Zero Z] (p : ADMMParams K X Z) (x0 : Option X) : ADMMStat
   let ul := p.C.map (fun _ => (0 : Z))
   { x := x0, z := zl, zOld := zl, u := ul }
 
+/-- `ADMM.__init__` with its argument checks: `N = len(g_list)`; `len(C_list) != N` and `len(rho_list) != N` raise
+    `ValueError` (in this order, before anything is stored).  (`N = 0` is rejected later by every sub-problem
+    solver's `internal_init`; that is outside this model.) -/
+def admmInitChecked [Zero X] [Zero Z] (p : ADMMParams K X Z) (x0 : Option X) : Except Err (ADMMState X Z) :=
+  -- N = len(g_list); if len(C_list) != N: raise ValueError
+  if p.C.length != p.g.length then .error .value
+  -- if len(rho_list) != N: raise ValueError
+  else if p.rho.length != p.g.length then .error .value
+  else .ok (admmInit p x0)
+
 variable [Add Z] [Sub Z] [SMul K Z] [Sub K] [Div K] [One K] [LT K] [DecidableLT K]
 
 /-- body of the `for i, (rhoi, gi, Ci, zi, ui) in enumerate(zip(...))` loop; the lists
@@ -675,6 +685,13 @@ def pgmInit (L0 : K) (inf : K) (x0 : X) (mem0 : σ) : PGMState σ K X :=
 /-- `AcceleratedPGM.__init__` : additionally `v = x0`, `t = 1.0` -/
 def apgmInit [One K] (L0 : K) (inf : K) (x0 : X) (mem0 : σ) : APGMState σ K X :=
   { x := x0, v := x0, t := 1, L := L0, fpr := inf, mem := mem0 }
+
+/-- `PGM.__init__` / `AcceleratedPGM.__init__` with the argument check `if g.has_prox is not True: raise ValueError` -/
+def pgmInitChecked (hasProx : Bool) (L0 : K) (inf : K) (x0 : X) (mem0 : σ) : Except Err (PGMState σ K X) :=
+  if hasProx then .ok (pgmInit L0 inf x0 mem0) else .error .value
+
+def apgmInitChecked [One K] (hasProx : Bool) (L0 : K) (inf : K) (x0 : X) (mem0 : σ) : Except Err (APGMState σ K X) :=
+  if hasProx then .ok (apgmInit L0 inf x0 mem0) else .error .value
 
 variable [Sub X] [SMul K X] [Div K] [One K]
 
